@@ -443,6 +443,27 @@ fn monitor(s: &mut Session, c: &Case, r: &Real) {
 	if inexact {
 		return;
 	}
+	// ---- a loop region that stays in force, played forwards: the loop end is exclusive and the loop never ends.
+	// Whatever seeks are issued (targets at or beyond the loop end wrap into the region), after the first output
+	// frame (a start at or after the loop end joins the loop on the next frame) every frame heard lies before the
+	// loop end, no frame is silent and the sound never reports Stopped.
+	if let (Some((ls, le)), false, false) = (wf.lp, backward, has_loop_cmd(c)) {
+		for (k, f) in outs.iter().enumerate() {
+			let bad = match decode(*f) {
+				Ok(Some(a)) if k >= 1 && a >= wf.off && a - wf.off >= le => Some(format!("source frame {} is heard", a - wf.off)),
+				Ok(None) => Some("silence is heard".to_string()),
+				_ => None,
+			};
+			if let Some(b) = bad {
+				s.fail(desc(), format!("output frame {k}: {b}, but the sound loops over frames {ls}..{le} (end exclusive) for ever: playback wraps from frame {} straight to frame {ls}, also when a seek asks for a frame at or beyond the loop end", le - 1), None);
+				return;
+			}
+		}
+		if let Some(j) = r.steps.iter().position(|st| st.state == 6) {
+			s.fail(desc(), format!("after callback {j} the sound reports Stopped, but it loops over frames {ls}..{le} for ever"), None);
+			return;
+		}
+	}
 	// ---- with commands: every frame heard is a frame of the slice; position and seeks within one frame
 	let mut k0 = 0usize;
 	for (j, st) in r.steps.iter().enumerate() {
